@@ -282,6 +282,27 @@ def run(tier):
     okl = len(writes) == len(want) and all(p(x) for (n, p), x in zip(want, writes))
     res.require(okl, 'C01:DataFrame::build_into:layout', 'data frame writes are not MHDR[0] DevAddr[1..5] FCtrl[5] FCnt16[6..8] FOpts[8..] FPort FRMPayload MIC: %s' % [
         (x[0], x[1], x[2], term_str(x[3])[:40]) for x in writes], bf.body.path, 'SPEC-LAYOUT(data frame)', instance='DataFrame: MHDR | DevAddr | FCtrl | FCnt(le16) | FOpts | FPort | FRMPayload | MIC in this order and at these offsets')
+    # EXACT-GUARD(FPort): the port byte is written whenever a port is present (the length reserved for the frame counts it) - and under no
+    # further condition: a port with an empty FRMPayload is legal, and a reused buffer must not shine through at that offset
+    raw = buffer_script(bf, lambda t: term_contains(t, lambda y: y == ('param', bufp)))
+    raw_w = [w for w in raw if w.kind in ('byte', 'range')]
+    okp, whyp = False, 'port byte write not found'
+    if len(raw_w) == len(writes):
+        pw = [(w, x) for w, x in zip(raw_w, writes) if x[0] == 'byte' and is_port_cursor(x[1])]
+        first = [w for w, x in zip(raw_w, writes) if x[0] == 'byte' and x[1] == 0]
+        if len(pw) == 1 and len(first) == 1:
+            base = {term_str(cn[0]) for cn in rules.path_conditions(bf, first[0].bb)}
+            extra = [cn for cn in rules.path_conditions(bf, pw[0][0].bb) if term_str(cn[0]) not in base]
+            val = pw[0][1][3]
+            opt = None
+            if isinstance(val, tuple) and val[:1] == ('field',) and isinstance(val[1], tuple) and val[1][:1] == ('as',) and val[1][2] == 'Some':
+                opt = peel(val[1][1])
+            some = [cn for cn in extra if isinstance(cn[0], tuple) and cn[0][:1] == ('discr',) and peel(cn[0][1]) == opt and cn[1] == (1,)]
+            other = [cn for cn in extra if cn not in some]
+            okp = opt is not None and len(some) == 1 and not other
+            whyp = 'the port byte is written only under %s' % [(term_str(cn[0])[:50], cn[1]) for cn in other] if other else 'the byte written is not the payload of the port option tested'
+    res.require(okp, 'C01:DataFrame::build_into:fport-guard', 'FPort: %s - a frame with a port and an empty FRMPayload keeps whatever the buffer held at that offset (and the MIC covers it)' % whyp, bf.body.path,
+                'EXACT-GUARD(port byte written <=> a port is present)', instance='DataFrame: the FPort byte is written exactly when a port is present')
     # the cursor: starts right after FOpts, +1 after the port byte
     cur = None
     for x in writes:
